@@ -179,7 +179,8 @@ def calculate_first_sets(grammar):
     Calculate first sets for each grammar symbol
     This is a dictionary which maps each grammar symbol
     to a set of terminals that can be encountered first
-    when looking for the symbol.
+    when looking for the symbol. The first set of a symbol which
+    can derive the empty string contains EPS as well.
     """
     first = {}
     nullable = {}
@@ -198,14 +199,17 @@ def calculate_first_sets(grammar):
             if all(nullable[beta] for beta in rule.symbols):
                 if not nullable[rule.name]:
                     nullable[rule.name] = True
+                    first[rule.name].add(EPS)
                     some_change = True
 
-            # Update first sets:
+            # Update first sets. Every symbol that can only be preceded
+            # by nullable symbols contributes its first set:
             for beta in rule.symbols:
+                new_firsts = first[beta] - first[rule.name] - {EPS}
+                if new_firsts:
+                    first[rule.name] |= new_firsts
+                    some_change = True
                 if not nullable[beta]:
-                    if first[beta] - first[rule.name]:
-                        first[rule.name] |= first[beta]
-                        some_change = True
                     break
         if not some_change:
             break
@@ -247,11 +251,14 @@ class LrParserBuilder:
                 worklist.append(itm)
 
         def first2(itm):
-            # When using the first sets, create a copy:
-            f = set(self.first[itm.NextNext])
-            if EPS in f:
-                f.discard(EPS)
-                f.add(itm.look_ahead)
+            # First set of everything that follows the next symbol,
+            # that is the rest of the production and then the look ahead:
+            f = set()
+            for symbol in itm.production.symbols[itm.dotpos + 1 :]:
+                f |= self.first[symbol] - {EPS}
+                if EPS not in self.first[symbol]:
+                    return f
+            f.add(itm.look_ahead)
             return f
 
         # Start of algorithm:
